@@ -11,7 +11,9 @@ use vcore::refcodec::*;
 
 pub const LEAVES: [&str; 5] = ["valid", "wronghost", "expired", "selfsigned", "unknownca"];
 pub const ROOTS: [&str; 4] = ["none", "issuing-ca-pem", "issuing-ca-der", "unrelated-ca"];
-pub const FLAGS: [&str; 3] = ["unset", "false", "true"];
+/// "true-then-false": ignore_tls_errors(true) followed by ignore_tls_errors(false) on the same builder -
+/// the last call wins, the client must verify
+pub const FLAGS: [&str; 4] = ["unset", "false", "true", "true-then-false"];
 
 pub fn fixtures_dir() -> std::path::PathBuf {
     vcore::runner::verif_root().join("fixtures/tls")
@@ -60,7 +62,7 @@ impl Cell {
     /// policy model: what the statement requires for this cell
     pub fn expectation(&self) -> &'static str {
         let chains = (self.leaf == "valid" && (self.root == "issuing-ca-pem" || self.root == "issuing-ca-der")) || (self.leaf == "validtiny" && (self.root == "tiny-ca-pem" || self.root == "tiny-ca-der"));
-        let host_ok = self.host == "localhost"; // the fixtures' SAN is DNS:localhost only
+        let host_ok = self.host == "localhost" || self.host == "https://localhost"; // the fixtures' SAN is DNS:localhost only
         let good = chains && host_ok; // "valid" = right host name, not expired, signed by the issuing CA
         if good {
             "must-accept"
@@ -111,7 +113,7 @@ pub fn cell_order(order: u64) -> Vec<(&'static str, &'static str)> {
     let mut cells: Vec<(&'static str, &'static str)> = Vec::new();
     match order {
         0 => {
-            for flag in ["true", "unset", "false"] {
+            for flag in ["true", "true-then-false", "unset", "false"] {
                 for root in ["issuing-ca-pem", "issuing-ca-der", "unrelated-ca", "none"] {
                     cells.push((flag, root));
                 }
@@ -163,7 +165,12 @@ pub fn run_leaf(backend: &str, leaf: &'static str, hosts: &[&'static str], rt: &
             for (flag, root) in cells {
                 // IP-literal targets: the fixtures' SAN is DNS:localhost only, so every certificate
                 // mismatches the host; only the cells that would otherwise be accepted are interesting
-                if host != "localhost" && !(root == "issuing-ca-pem" && flag != "true" && leaf != "validtiny") {
+                if host == "https://localhost" {
+                    // the same target spelled https:// instead of ipps://: a reduced block
+                    if !(matches!(root, "issuing-ca-pem" | "issuing-ca-der" | "none") && matches!(flag, "unset" | "true") && leaf != "validtiny") {
+                        continue;
+                    }
+                } else if host != "localhost" && !(root == "issuing-ca-pem" && flag != "true" && leaf != "validtiny") {
                     continue;
                 }
                 let server = if host == "[::1]" {
@@ -176,12 +183,19 @@ pub fn run_leaf(backend: &str, leaf: &'static str, hosts: &[&'static str], rt: &
                 };
                 {
                     let cell = Cell { backend: backend.to_string(), client, flag, root, leaf, host };
-                    let uri: Uri = format!("ipps://{host}:{}/ipp/print", server.port).parse().unwrap();
+                    let uri: Uri = match host.strip_prefix("https://") {
+                        Some(h) => format!("https://{h}:{}/ipp/print", server.port),
+                        None => format!("ipps://{host}:{}/ipp/print", server.port),
+                    }
+                    .parse()
+                    .unwrap();
                     let before = server.conn_count();
                     let rb = root_bytes(root);
                     let outcome: Result<Result<IppRequestResponse, String>, String> = if client == "blocking" {
                         let mut b = IppClient::builder(uri).request_timeout(Duration::from_secs(20));
-                        if flag != "unset" {
+                        if flag == "true-then-false" {
+                            b = b.ignore_tls_errors(true).ignore_tls_errors(false);
+                        } else if flag != "unset" {
                             b = b.ignore_tls_errors(flag == "true");
                         }
                         if let Some(r) = &rb {
@@ -191,7 +205,9 @@ pub fn run_leaf(backend: &str, leaf: &'static str, hosts: &[&'static str], rt: &
                         vcore::runner::catch(move || c.send(request()).map_err(|e| format!("{e:?}")))
                     } else {
                         let mut b = AsyncIppClient::builder(uri).request_timeout(Duration::from_secs(20));
-                        if flag != "unset" {
+                        if flag == "true-then-false" {
+                            b = b.ignore_tls_errors(true).ignore_tls_errors(false);
+                        } else if flag != "unset" {
                             b = b.ignore_tls_errors(flag == "true");
                         }
                         if let Some(r) = &rb {
@@ -247,7 +263,7 @@ pub fn run_leaf(backend: &str, leaf: &'static str, hosts: &[&'static str], rt: &
 pub fn run_matrix(backend: &str, with_ip_target: bool, order: u64) -> Result<Vec<CellResult>, String> {
     let rt = tokio::runtime::Builder::new_multi_thread().worker_threads(2).enable_all().build().map_err(|e| format!("{e}"))?;
     let _ = with_ip_target;
-    let hosts: Vec<&'static str> = vec!["localhost", "127.0.0.1", "[::1]"];
+    let hosts: Vec<&'static str> = vec!["localhost", "127.0.0.1", "[::1]", "https://localhost"];
     let mut all = Vec::new();
     let results: Vec<Result<Vec<CellResult>, String>> = std::thread::scope(|sc| {
         let hs: Vec<_> = LEAVES
@@ -275,9 +291,10 @@ pub fn result_json(r: &CellResult) -> Value {
 pub fn replay_cell(backend: &str, v: &Value) -> Result<CellResult, String> {
     let find = |list: &[&'static str], key: &str| -> Option<&'static str> { list.iter().copied().find(|x| Some(*x) == v.get(key).and_then(|s| s.as_str())) };
     let leaf = find(&["valid", "wronghost", "expired", "selfsigned", "unknownca", "validtiny"], "leaf").ok_or("leaf")?;
+    let _ = &FLAGS;
     let want = (v.get("client").and_then(|s| s.as_str()).unwrap_or("").to_string(), v.get("flag").and_then(|s| s.as_str()).unwrap_or("").to_string(), v.get("root").and_then(|s| s.as_str()).unwrap_or("").to_string(), v.get("host").and_then(|s| s.as_str()).unwrap_or("localhost").to_string());
     let rt = tokio::runtime::Builder::new_multi_thread().worker_threads(2).enable_all().build().map_err(|e| format!("{e}"))?;
-    let hosts: Vec<&'static str> = if want.3 == "127.0.0.1" { vec!["127.0.0.1"] } else if want.3 == "[::1]" { vec!["[::1]"] } else { vec!["localhost"] };
+    let hosts: Vec<&'static str> = if want.3 == "127.0.0.1" { vec!["127.0.0.1"] } else if want.3 == "[::1]" { vec!["[::1]"] } else if want.3 == "https://localhost" { vec!["https://localhost"] } else { vec!["localhost"] };
     for r in run_leaf(backend, leaf, &hosts, &rt, v.get("order").and_then(|o| o.as_u64()).unwrap_or(0))? {
         if r.cell.client == want.0 && r.cell.flag == want.1 && r.cell.root == want.2 {
             return Ok(r);
